@@ -139,6 +139,11 @@ def gen_case(rng):
             rhs = ("bin", "+", rhs, ("der", var(s2)))
             states.add(s2)
             tags.add("der:inside-expression")
+        ins = [n for n in allnames if prefixes[n] == ["input"] and "." not in n]
+        if ins and rng.random() < 0.3:
+            # a differentiated input stays an input
+            rhs = ("bin", "+", rhs, ("bin", "*", num(2), ("der", var(rng.choice(ins)))))
+            tags.add("der:of-input")
         if needs_parens(rhs):
             nontrivial = True
         eqs.append((lhs, rhs))
